@@ -51,7 +51,11 @@ var peerTree = []world.EntSpec{
 	}},
 }
 
-func newEnv(connectOnly bool) *env {
+func newEnv(connectOnly bool) *env { return newEnvBoth(connectOnly, false) }
+
+// newEnvBoth: with both set neither peer has announced itself when the messages arrive (their
+// client addresses are equal as far as the stack knows: :[0]:0).
+func newEnvBoth(connectOnly, both bool) *env {
 	e := &env{w: world.New(), cbPanic: make(chan string, 16)}
 	le := e.w.AddLocalEntity([]uint{1}, model.EntityTypeTypeCEM, time.Second)
 	e.meas = e.w.AddLocalFeature(le, world.FeatSpec{Type: model.FeatureTypeTypeMeasurement, Role: model.RoleTypeServer, Funcs: []world.FuncSpec{
@@ -74,8 +78,8 @@ func newEnv(connectOnly bool) *env {
 	lf := gen.ByFunction(model.FunctionTypeLoadControlLimitListData)
 	e.lc.SetData(lf.Fn, refmodel.Payload(lf, []reflect.Value{mkItem(lf, 0), mkItem(lf, 1)}))
 	for i := 0; i < 2; i++ {
-		if connectOnly && i == 0 {
-			e.w.Connect("ski-1", "d:_r:peer1") // the first messages arrive before discovery
+		if (connectOnly && i == 0) || both {
+			e.w.Connect(fmt.Sprintf("ski-%d", i+1), fmt.Sprintf("d:_r:peer%d", i+1)) // the first messages arrive before discovery
 			continue
 		}
 		p := e.w.AddPeer(fmt.Sprintf("ski-%d", i+1), fmt.Sprintf("d:_r:peer%d", i+1), peerTree)
@@ -164,6 +168,19 @@ var templates = []template{
 	}},
 	{"binding-delete", func(t *rapid.T, e *env, p *world.Peer) model.DatagramType {
 		return p.Msg(model.CmdClassifierTypeCall, p.NM(), world.LocalNM(), true, nil, world.UnbindCall(p.FA([]uint{1}, 2), e.lc.Address()))
+	}},
+	// all a peer can ask for before it has announced itself: node management to node management
+	{"nm-subscription-request", func(t *rapid.T, e *env, p *world.Peer) model.DatagramType {
+		return p.Msg(model.CmdClassifierTypeCall, p.NM(), world.LocalNM(), true, nil, world.SubscribeCall(p.NM(), world.LocalNM(), model.FeatureTypeTypeNodeManagement))
+	}},
+	{"nm-subscription-delete", func(t *rapid.T, e *env, p *world.Peer) model.DatagramType {
+		return p.Msg(model.CmdClassifierTypeCall, p.NM(), world.LocalNM(), true, nil, world.UnsubscribeCall(p.NM(), world.LocalNM()))
+	}},
+	{"nm-binding-request", func(t *rapid.T, e *env, p *world.Peer) model.DatagramType {
+		return p.Msg(model.CmdClassifierTypeCall, p.NM(), world.LocalNM(), true, nil, world.BindCall(p.NM(), world.LocalNM(), model.FeatureTypeTypeNodeManagement))
+	}},
+	{"nm-binding-delete", func(t *rapid.T, e *env, p *world.Peer) model.DatagramType {
+		return p.Msg(model.CmdClassifierTypeCall, p.NM(), world.LocalNM(), true, nil, world.UnbindCall(p.NM(), world.LocalNM()))
 	}},
 	{"read", func(t *rapid.T, e *env, p *world.Peer) model.DatagramType {
 		return p.Msg(model.CmdClassifierTypeRead, p.FA([]uint{1}, 1), e.meas.Address(), false, nil, model.CmdType{MeasurementListData: &model.MeasurementListDataType{}})
@@ -394,6 +411,11 @@ func probe(e *env, p *world.Peer) *verdict {
 		for _, d := range []model.DatagramType{
 			p.Msg(model.CmdClassifierTypeReply, p.NM(), world.LocalNM(), false, p.DiscoveryRef, model.CmdType{NodeManagementUseCaseData: &model.NodeManagementUseCaseDataType{}}),
 			p.Msg(model.CmdClassifierTypeNotify, p.FA([]uint{1}, 3), e.cli.Address(), false, nil, model.CmdType{MeasurementListData: &model.MeasurementListDataType{}}),
+			// the registries answer (their locks are free): whatever the verdict, a request and its delete return
+			p.Msg(model.CmdClassifierTypeCall, p.NM(), world.LocalNM(), true, nil, world.BindCall(p.NM(), world.LocalNM(), model.FeatureTypeTypeNodeManagement)),
+			p.Msg(model.CmdClassifierTypeCall, p.NM(), world.LocalNM(), true, nil, world.UnbindCall(p.NM(), world.LocalNM())),
+			p.Msg(model.CmdClassifierTypeCall, p.NM(), world.LocalNM(), true, nil, world.SubscribeCall(p.NM(), world.LocalNM(), model.FeatureTypeTypeNodeManagement)),
+			p.Msg(model.CmdClassifierTypeCall, p.NM(), world.LocalNM(), true, nil, world.UnsubscribeCall(p.NM(), world.LocalNM())),
 			// whatever an accepted write has left in the data of the server features is encoded again
 			// when somebody reads it
 			p.Msg(model.CmdClassifierTypeRead, p.FA([]uint{1}, 1), e.meas.Address(), false, nil, model.CmdType{MeasurementListData: &model.MeasurementListDataType{}}),
@@ -423,6 +445,7 @@ type caseLog struct {
 	Messages []string `json:"messages"`
 	Peers    []int    `json:"peers"`
 	Early    bool     `json:"first_peer_before_discovery"`
+	Both     bool     `json:"both_peers_before_discovery"`
 }
 
 func (c *caseLog) save() {
@@ -478,16 +501,30 @@ func FuzzMutated(f *testing.F) { f.Fuzz(rapid.MakeFuzz(world.Prop(mutatedProp)))
 
 func mutatedProp(t *rapid.T) {
 	{
-		early := rapid.IntRange(0, 4).Draw(t, "beforeDiscovery") == 0
-		e := newEnv(early)
+		mode := rapid.IntRange(0, 5).Draw(t, "beforeDiscovery")
+		early, both := mode == 0, mode == 1
+		e := newEnvBoth(early, both)
 		defer e.w.Teardown()
 		n := rapid.IntRange(1, 5).Draw(t, "messages")
-		log := &caseLog{Test: "TestMutatedMessages", Early: early}
+		log := &caseLog{Test: "TestMutatedMessages", Early: early, Both: both}
+		if both {
+			world.Label("env/both-peers-before-discovery")
+		}
 		var descr []string
 		reached := false
 		for i := 0; i < n; i++ {
 			pi := rapid.IntRange(0, 1).Draw(t, fmt.Sprintf("peer%d", i))
 			tpl := templates[rapid.IntRange(0, len(templates)-1).Draw(t, fmt.Sprintf("template%d", i))]
+			if both && rapid.IntRange(0, 3).Draw(t, fmt.Sprintf("nmOnly%d", i)) != 0 {
+				// mostly what such peers can meaningfully send
+				var nm []template
+				for _, x := range templates {
+					if strings.HasPrefix(x.name, "nm-") || x.name == "discovery-reply" {
+						nm = append(nm, x)
+					}
+				}
+				tpl = nm[rapid.IntRange(0, len(nm)-1).Draw(t, fmt.Sprintf("nmTemplate%d", i))]
+			}
 			p := e.w.Peers[pi]
 			raw := world.Encode(tpl.make(t, e, p))
 			mut, paths := mutate(t, raw, fmt.Sprintf("m%d", i))
@@ -526,7 +563,7 @@ func TestReplayCase(t *testing.T) {
 	if err := json.Unmarshal(b, &log); err != nil {
 		t.Fatal(err)
 	}
-	e := newEnv(log.Early)
+	e := newEnvBoth(log.Early, log.Both)
 	defer e.w.Teardown()
 	if v := runCase(e, &log); v != nil {
 		world.Fail(t, v.sig, "%s", v.detail)
